@@ -50,7 +50,8 @@ Strict == [allDomains |-> TRUE,   \* a placed pod blocks / occupies EVERY domain
                                   \* unknown, so everything that may have changed since is read in the pod's favour - NodeClaims are no
                                   \* hostname domains, a NodeClaim certainly takes part only if the node filter is trivial and possibly
                                   \* always, a matching pod that does not carry the constraint may have been in any domain, and the
-                                  \* universe is what the existing nodes and the pods running before the pass establish
+                                  \* universe is what the existing nodes and the pods running before the pass establish (minDomains,
+                                  \* which a too small universe would trigger wrongly, is not applied)
            undefSkips |-> FALSE]  \* a pod committed to a NodeClaim that left a key of the node filter undefined at that moment is not counted
 
 Fld(r, f, d) == IF f \in DOMAIN r THEN r[f] ELSE d
@@ -240,7 +241,8 @@ SpreadParts(o, W, p, x, s, UL) ==
         D == (IF k = "host" THEN HostD
               ELSE {e \in U : (o.policies /\ o.ignoreWidens /\ s.affPol = "Ignore") \/ AllowsKey(o, cfg, p, k, e)}) \cup Dx
         self == IF SpreadMatches(o, s, p, p) THEN 1 ELSE 0
-        mn == IF o.minDomains /\ s.minDomains > 0 /\ Cardinality(D) < s.minDomains THEN 0 ELSE MinS({hi(e) : e \in D})
+        \* (the order-free form does not know the universe, and a smaller one would wrongly trigger minDomains)
+        mn == IF o.minDomains /\ ~o.endForm /\ s.minDomains > 0 /\ Cardinality(D) < s.minDomains THEN 0 ELSE MinS({hi(e) : e \in D})
     IN [haskey |-> Dx # {}, dx |-> Dx, d |-> D, min |-> mn, self |-> self,
         cnt |-> [d \in Dx |-> lo(d)], hi |-> [e \in D |-> hi(e)],
         okd |-> [d \in Dx |-> lo(d) + self - mn <= s.maxSkew + o.slack],
